@@ -554,7 +554,15 @@ func runROne(t *testing.T, ch *vs.Choices, prop, tier string, render bool, p *rP
 				}
 				// approval events of this invocation: the user answered y to the prompt shown for the content the
 				// server currently serves, or --yes accepted it ("[assuming yes]")
-				if (prompted > 0 && s.Answer == "y") || assumedYes > 0 {
+				if (assumedYes > 0 || assumedYes2 > 0) && !s.Yes {
+					// "[assuming yes]" is what --yes prints: without --yes nobody approved anything
+					how := "plain"
+					if s.Dry {
+						how = "dry"
+					}
+					out.Violate("C20", "approved_without_the_user|"+how, "%s: remote content was accepted with '[assuming yes]' although --yes was not given", desc)
+				}
+				if (prompted > 0 && s.Answer == "y") || (assumedYes > 0 && s.Yes) {
 					if crashed {
 						// the process was killed after the user (or --yes) had accepted the new content but possibly
 						// before that acceptance was recorded: only durable state survives, so what is on record is
